@@ -337,4 +337,18 @@ Section Binder.
   Qed.
   Lemma tb_rel_start pre : tb_pre_ok c pre = true -> tb_rel (tb_start c pre) pre.
   Proof. intros H. exists pre. split; [apply tb_start_inv; auto|apply Permutation_refl]. Qed.
+
+  (* ---- index-based access is stable while nothing changes ---- *)
+  Definition tb_Inv (s : tb_state) : Prop := exists a, tb_rel s a.
+  Lemma tb_Inv_step s k : tb_Inv s -> tb_Inv (step_state (tb_step c) s k).
+  Proof.
+    intros [a HR]. pose proof (tb_spec_sim k HR) as H. unfold step_state.
+    destruct (tb_step c s k) as [[s' []]|]; [destruct H as [a' [_ H]]; exists a'; auto|exists a; auto].
+  Qed.
+  Lemma tb_L_nodup s : tb_Inv s -> NoDup (tb_linked c s).
+  Proof. intros [a [l [Hi _]]]. rewrite (tb_linked_inv Hi). destruct Hi as (_ & H & _). auto. Qed.
+  Lemma tb_L_pairs s qs : tb_Inv s ->
+    Forall (fun p => nth_error (tb_linked c s) (N.to_nat (fst p)) = Some (snd p))
+           (tb_pairs (map (fun q => (q, tb_answer c s q)) qs)).
+  Proof. intros [a [l [Hi _]]]. rewrite (tb_linked_inv Hi). apply tb_pairs_model. auto. Qed.
 End Binder.
